@@ -142,6 +142,12 @@ def builtin_care(atoms, cols, ones):
                     and isinstance(x[3], tuple) and x[3][0] == "enum"]
             if len(both) == 2:
                 care &= ones & (~ka | cols[both[0]] | cols[both[1]])
+    # the square (F, R) stands on rank R and on file F
+    for a in atoms:
+        if isinstance(a, tuple) and a and a[0] == "bbof" and isinstance(a[1], tuple) and a[1] and a[1][0] == "sq" and len(a[1]) == 3:
+            for b in atoms:
+                if isinstance(b, tuple) and len(b) == 2 and ((b[0] == "rankbb" and b[1] == a[1][2]) or (b[0] == "filebb" and b[1] == a[1][1])):
+                    care &= ones & (~cols[a] | cols[b])
     # two squares known to differ are never both "the square at hand": a member of pawn_attacks(sq(F, _), _) does not
     # stand on file F (pawns capture onto the neighbouring files)
     singles = [a for a in atoms if isinstance(a, tuple) and a and a[0] == "bbof" and isinstance(a[1], tuple) and a[1]]
@@ -219,9 +225,11 @@ def canon(e):
     collect_atoms(e, atoms)
     atoms.sort(key=repr)
     tt, ones = truth(e, atoms)
+    care = None
     if any(isinstance(a, tuple) and a and a[0] in ("bbof", "get") for a in atoms):
         cols_, ones_ = columns(atoms)
-        tt &= builtin_care(atoms, cols_, ones_)
+        care = builtin_care(atoms, cols_, ones_)
+        tt &= care
     # drop atoms the function does not depend on
     changed = True
     while changed:
@@ -230,11 +238,43 @@ def canon(e):
             if not depends(tt, len(atoms), i):
                 tt = project_out(tt, len(atoms), i)
                 atoms = atoms[:i] + atoms[i + 1:]
+                care = None
                 changed = True
                 break
+        if not changed and care is not None and care != ones:
+            # an atom the function depends on only through rows that cannot occur (e.g. `bb(sq(F, R)) & rank_bb(R)`:
+            # the square is on that rank anyway): give the impossible rows the value of their possible sibling
+            for i, a in enumerate(atoms):
+                sm = smooth(tt, care, len(atoms), i)
+                if sm is not None and not depends(sm, len(atoms), i):
+                    tt = project_out(sm, len(atoms), i)
+                    atoms = atoms[:i] + atoms[i + 1:]
+                    changed = True
+                    break
+            if changed:
+                cols_, ones_ = columns(atoms)
+                care = builtin_care(atoms, cols_, ones_)
+                ones = ones_
+                tt &= care
     if len(atoms) == 1 and tt == 0b10:
         return atoms[0]
     return ("bool", tuple(atoms), tt)
+
+
+def smooth(tt, care, n, i):
+    """tt with every impossible row (outside `care`) given the value of the row that differs from it in atom i alone,
+    when that row is possible"""
+    out = tt
+    bit = 1 << i
+    for r in range(1 << n):
+        if not (care >> r) & 1:
+            s = r ^ bit
+            if (care >> s) & 1:
+                if (tt >> s) & 1:
+                    out |= 1 << r
+                else:
+                    out &= ~(1 << r)
+    return out
 
 
 def depends(tt, n, i):
